@@ -1068,6 +1068,15 @@ func invokeAfter(c *Case, r *row, login, b hotline.AccessBitmap, history func(w 
 	return nil
 }
 
+// scriptConn plays the client side of a transfer connection: prepared bytes in, server writes collected.
+type scriptConn struct {
+	in  *bytes.Reader
+	out bytes.Buffer
+}
+
+func (s *scriptConn) Read(p []byte) (int, error)  { return s.in.Read(p) }
+func (s *scriptConn) Write(p []byte) (int, error) { return s.out.Write(p) }
+
 func equalSnap(a, b []string) bool {
 	if len(a) != len(b) {
 		return false
@@ -1306,6 +1315,100 @@ func init() {
 				return ""
 			})
 			c.Dist(fmt.Sprintf("set-user-sessions/%s/session-%d", mode, k+1))
+		}})
+		// the transfer phase of a granted folder upload: an account WITHOUT upload-anywhere was granted a folder upload
+		// into an upload folder / drop box; whatever item paths it then announces on the transfer connection (".."
+		// segments, segments with separators, empty and dot segments), nothing may appear outside that folder
+		x.Add(&Family{Name: "folder-upload-items", Quick: 150, Thor: 3000, Run: func(c *Case) {
+			r := c.R
+			b := bmOf(38)
+			for k := r.Intn(6); k > 0; k-- {
+				if g := definedPrivs[r.Intn(40)]; g != 25 {
+					b = hotline.AccessBitmap(withBit(b, g))
+				}
+			}
+			places := [][]string{{"Uploads"}, {"Drop Box"}, {"My UPLOADS"}, {"plain", "..", "Uploads"}, {"Uploads/../Old DROP Box"}}
+			pl := places[r.Intn(len(places))]
+			segs := []string{"..", "..", "escaped", "sub", ".", "", "a/../../../esc2", "../x", "plain", "Uploads", "deep/er", "...", "..", "/abs"}
+			nItems := 1 + r.Intn(4)
+			var itemPaths [][]string
+			for i := 0; i < nItems; i++ {
+				var it []string
+				switch r.Intn(5) {
+				case 0:
+					it = []string{"..", "..", "escaped"}
+				case 1:
+					it = []string{"sub", "..", "..", "..", "escaped2"}
+				default:
+					for k := 1 + r.Intn(4); k > 0; k-- {
+						it = append(it, segs[r.Intn(len(segs))])
+					}
+				}
+				itemPaths = append(itemPaths, it)
+			}
+			w, err := newWorld(b, bmOf(2, 9))
+			if err != nil {
+				c.Disagree("fixture", "world could not be built")
+				return
+			}
+			defer w.ts.Close()
+			c.Note("bitmap", bmHex(b))
+			c.Note("granted_into", pl)
+			c.Note("item_paths", itemPaths)
+			res, _, pan := w.ts.Call(w.rq, tr(hotline.TranUploadFldr, fld(hotline.FieldFilePath, fpath(pl...)), fld(hotline.FieldFileName, []byte("newdir")),
+				fld(hotline.FieldTransferSize, []byte{0, 0, 0, 0}), fld(hotline.FieldFolderItemCount, be16(nItems))))
+			if pan != nil || len(res) != 1 || isErrReply(res[0]) {
+				c.Disagree("fixture-upload-grant", "a folder upload into an upload folder / drop box was not granted to an account holding upload-folder")
+				return
+			}
+			var ref []byte
+			for _, f := range res[0].Fields {
+				if f.Type == hotline.FieldRefNum {
+					ref = f.Data
+				}
+			}
+			if len(ref) != 4 {
+				c.Disagree("fixture-upload-grant", "no reference number")
+				return
+			}
+			ft := w.ts.Srv.FileTransferMgr.Get(hotline.FileTransferID(ref))
+			if ft == nil {
+				c.Disagree("fixture-upload-grant", "no transfer registered")
+				return
+			}
+			fullPath, err := hotline.ReadPath(ft.FileRoot, ft.FilePath, ft.FileName)
+			if err != nil {
+				c.Disagree("fixture-upload-grant", "transfer path unreadable")
+				return
+			}
+			granted, _ := filepath.Rel(w.ts.Dir, filepath.Dir(fullPath)) // the folder the upload was granted into
+			var stream []byte
+			for _, it := range itemPaths {
+				ip := fpath(it...)
+				stream = append(stream, be16(len(ip)-2+4)...)
+				stream = append(stream, 0, 1) // a folder item
+				stream = append(stream, ip...)
+			}
+			before := snapshot(w.ts.Dir)
+			func() {
+				defer func() { recover() }()
+				_ = hotline.UploadFolderHandler(&scriptConn{in: bytes.NewReader(stream)}, fullPath, ft, w.ts.Srv.FS, discardLogger, false)
+			}()
+			after := snapshot(w.ts.Dir)
+			var outside []string
+			for _, d := range diffSnap(before, after) {
+				line := strings.TrimPrefix(strings.TrimPrefix(d, "+ "), "- ") // "<path> D" | "<path> F …" | "<path> L …"
+				if !strings.HasPrefix(line, granted+"/") && !strings.HasPrefix(line, granted+" ") {
+					outside = append(outside, d)
+				}
+			}
+			if len(outside) > 0 {
+				c.Note("outside", outside)
+				c.Note("granted_folder", granted)
+				c.Violation("upload-outside-granted-folder", "an account without upload-anywhere, granted a folder upload into an upload folder, created entries outside that folder through its item paths")
+			}
+			c.Dist(fmt.Sprintf("folder-upload-items/changed-%v", !equalSnap(before, after)))
+			c.Nontrivial(fmt.Sprint("fui:", pl, itemPaths))
 		}})
 		x.Add(&Family{Name: "random-bitmaps", Quick: 150, Thor: 3000, Run: func(c *Case) {
 			r := &rows[c.R.Intn(len(rows))]
